@@ -113,6 +113,9 @@ def distance_case(case):
     p, q = mk_dist(case["p"]), mk_dist(case["q"])
     sp, sq = list(p.distribution_dict.items()), list(q.distribution_dict.items())
     sig = case["sigma"]
+    if case.get("nonbinary"):
+        # the MMD kernel is defined on integer-coded BIT strings; for other outcome alphabets the library refuses (ValueError) and nothing is claimed
+        compute_mmd = lambda *a, **k: 0.0  # noqa: E731
     m1 = compute_mmd(p, q, {"sigma": sig})
     m2 = compute_mmd(q, p, {"sigma": sig})
     mpp = compute_mmd(p, mk_dist(case["p"]), {"sigma": sig})
@@ -125,18 +128,27 @@ def distance_case(case):
         return {"ok": False, "msg": "squared MMD between a distribution and itself (or an equal copy) is not zero", "observed": mpp, "sig": "mmd:self"}
     if same and abs(m1) > TOL:
         return {"ok": False, "msg": "squared MMD between equal distributions (different insertion order) is not zero", "observed": m1, "sig": "mmd:equal"}
-    eps = 1e-9
-    nll = compute_clipped_negative_log_likelihood(p, q, {"epsilon": eps})
+    eps = case.get("eps", 1e-9)
+    # ONE parameter dictionary is shared by all calls below, as a caller looping over distributions would do
+    params = {"epsilon": eps, "sigma": sig}
+    params_before = dict(params)
+    nll = compute_clipped_negative_log_likelihood(p, q, params)
+    if params != params_before:
+        return {"ok": False, "msg": "compute_clipped_negative_log_likelihood modified the caller's parameter dictionary", "expected": str(params_before), "observed": str(params), "sig": "distance:params-mutated"}
     K = len(set(p.distribution_dict) | set(q.distribution_dict))
     if nll < entropy(p.distribution_dict) - math.log(1 + K * eps) - 1e-9:
         return {"ok": False, "msg": "clipped negative log-likelihood is below the target's entropy", "expected": ">= %r" % entropy(p.distribution_dict), "observed": nll, "sig": "nll:gibbs"}
     exp_nll = -sum(v * math.log(max(eps, q.distribution_dict.get(k2, 0))) for k2, v in p.distribution_dict.items())
     if abs(nll - exp_nll) > 1e-9:
         return {"ok": False, "msg": "clipped negative log-likelihood differs from its definition", "expected": exp_nll, "observed": nll, "sig": "nll:value"}
-    j1 = compute_jensen_shannon_divergence(p, q, {"epsilon": eps})
-    j2 = compute_jensen_shannon_divergence(q, p, {"epsilon": eps})
+    j1 = compute_jensen_shannon_divergence(p, q, params)
+    j2 = compute_jensen_shannon_divergence(q, p, params)
+    if params != params_before:
+        return {"ok": False, "msg": "compute_jensen_shannon_divergence modified the caller's parameter dictionary", "expected": str(params_before), "observed": str(params), "sig": "distance:params-mutated"}
     if abs(j1 - j2) > 1e-9:
-        return {"ok": False, "msg": "symmetrised divergence is not symmetric", "sig": "js:symmetry"}
+        return {"ok": False, "msg": "symmetrised divergence is not symmetric (epsilon=%s)" % eps, "expected": j1, "observed": j2, "sig": "js:symmetry"}
+    if abs(compute_clipped_negative_log_likelihood(p, q, params) - nll) > 0 or abs(compute_mmd(p, q, params) - m1) > TOL:
+        return {"ok": False, "msg": "the same distance with the same (shared) parameter dictionary gives a different value the second time", "sig": "distance:repeat"}
     if list(p.distribution_dict.items()) != sp or list(q.distribution_dict.items()) != sq:
         return {"ok": False, "msg": "a distance function modified its arguments", "sig": "distance:mutated"}
     return {"ok": True, "nt": not same, "ops": 6, "out": "same" if same else "diff"}
@@ -191,6 +203,9 @@ def run(run):
             cc.append({"items": nz[::-1], "style": "tuple", "valid": True})
     cc += [{"items": [[[0, 1], 0.25], [[1, 1], 0.75]], "style": "str", "valid": True}, {"items": [[[0, 2], 1], [[3, 1], 2]], "style": "comma", "valid": True},
            {"items": [[[0], 0.1], [[1], 0.2]], "style": "tuple", "valid": True}]
+    for style in ("tuple", "comma"):   # multi-digit entries: a comma-separated key is split on the commas, nothing else
+        cc += [{"items": [[[0, 10], 1], [[12, 1], 2]], "style": style, "valid": True}, {"items": [[[10, 0], 1], [[1, 0], 3], [[0, 1], 2]], "style": style, "valid": True},
+               {"items": [[[1, 0, 11], 2], [[10, 1, 1], 1], [[1, 1, 0], 1]], "style": style, "valid": True}]
     bad = [([], "empty"), ([[[0, 1], -1], [[1, 1], 3]], "negative weight"), ([[[0, 0], -1], [[1, 1], -3]], "all weights negative"), ([[[0], 1], [[1, 1], 1]], "unequal key lengths"),
            ([[[0, 0], -0.5]], "single negative"), ([[[0, 1], 1], [[1, 1], -1e-3]], "small negative")]
     for items, why in bad:
@@ -209,6 +224,9 @@ def run(run):
         mc_.append({"items": [[b, 1] for b in B], "w": w, "style": "comma"})
         if w <= 2:
             mc_ += [{"items": it, "w": w, "style": "tuple"} for it in weight_dicts(w, 2)]
+    mc_ += [{"items": [[[0, 10, 2], 1], [[12, 1, 2], 2], [[0, 1, 0], 3], [[12, 10, 0], 4]], "w": 3, "style": st} for st in ("tuple", "comma")]
+    mc_ += [{"items": [[[1, 10], 1], [[11, 0], 2]], "w": 2, "style": st} for st in ("tuple", "comma")]   # concatenated digits would coincide: '110'
+    mc_ += [{"items": [[[1, 10, 1], 1], [[11, 0, 1], 2], [[1, 1, 1], 4]], "w": 3, "style": "tuple"}]
     secs.append(Section("marginals", mc_, marginal_case, horizon=300, desc="subdistribution on every ordered list of distinct qubits vs exact marginals; source untouched"))
     pool = []
     for items in weight_dicts(2, 2):
@@ -222,6 +240,10 @@ def run(run):
     pool = base + rev + rot + zero
     sig = [0.5, 1, 2, [1, 2]] if thorough else [1, [0.5, 2]]
     dc = [{"p": a, "q": b, "sigma": s} for a in pool for b in pool for s in sig]
+    dc += [{"p": a, "q": b, "sigma": 1, "eps": e} for a in pool for b in pool for e in ((0.05, 1e-3, 0.3) if thorough else (0.05,))]   # a clipping constant that actually clips
+    # outcomes of non-binary subsystems with multi-digit entries
+    qpool = [[[[0, 10], 1], [[12, 1], 2]], [[[12, 1], 1], [[0, 10], 1], [[3, 0], 2]], [[[3, 0], 1]], [[[0, 10], 3], [[3, 0], 1]]]
+    dc += [{"p": a, "q": b, "sigma": 1, "nonbinary": True, "eps": e} for a in qpool for b in qpool for e in (1e-9, 0.05)]
     secs.append(Section("distances", dc, distance_case, desc="MMD / clipped NLL / JS laws on all ordered pairs of a %d-distribution pool" % len(pool)))
-    secs.append(Section("save_load", [{"dists": [a, b]} for a in pool[::4] for b in pool[1::9]] + [{"dists": [z, pool[0]]} for z in zero] + [{"dists": [pool[1], z, z]} for z in zero[:2]], io_case, desc="save_/load_measurement_outcome_distribution(s)"))
+    secs.append(Section("save_load", [{"dists": [a, b]} for a in pool[::4] for b in pool[1::9]] + [{"dists": [z, pool[0]]} for z in zero] + [{"dists": [pool[1], z, z]} for z in zero[:2]] + [{"dists": [a, b]} for a in qpool for b in qpool[:2]], io_case, desc="save_/load_measurement_outcome_distribution(s)"))
     run.run_sections(secs)
